@@ -725,7 +725,7 @@ impl Property for StepProp {
         let mut p = Profile::base(*r.pick(self.focus));
         (self.tune)(&mut p, &mut r);
         let mut t = gen::trace(self.id, seed, index, &p);
-        if self.id == "C16" && t.bytes_total() <= 40 && r.chance(1, 4) {
+        if self.id == "C16" && t.bytes_total() <= gen::bound(40) && r.chance(1, 4) {
             // fault-point enumeration: one more resize at EVERY operation boundary of this history
             let g = gen::Geo { cols: t.columns, lines: t.lines };
             let (l, c) = gen::resize_target(&mut r, g, g);
@@ -745,7 +745,7 @@ impl Property for StepProp {
         let judged = obs.judged;
         if let [u32::MAX, l, c] = trace.extra.as_slice() {
             if *l >= 1 && *c >= 1 {
-                for k in 0..=stats.own_ops.min(48) {
+                for k in 0..=stats.own_ops.min(gen::bound(48) as u64) {
                     let inj = vec![(k, Op::Resize(Some(*l), Some(*c)))];
                     let mut scratch = Coverage::default();
                     let mut o2 = StepObs {
